@@ -262,3 +262,17 @@ def random_type(rng, depth):
                 names.add(nm)
                 ms2.append(t)
         return uref(ms2)
+
+
+def renamed(ast, suffix):
+    """the same type expression with fresh struct / union names (fresh classes when built)"""
+    k = ast[0]
+    if k == "struct":
+        return ("struct", ast[1] + suffix, tuple((fn, renamed(ft, suffix)) for fn, ft in ast[2]))
+    if k == "array":
+        return ("array", renamed(ast[1], suffix), ast[2], ast[3])
+    if k == "ref":
+        return ("ref", renamed(ast[1], suffix))
+    if k == "uref":
+        return ("uref", ast[1] + suffix, tuple(renamed(m, suffix) for m in ast[2]))
+    return ast
